@@ -864,6 +864,61 @@ def probe_leap_year(r):
     return None, None
 
 
+def probe_sparse_pollutant_sets(r):
+    """pollutant sets with no additive pollutant at all, with no non-additive one, with one of each: a small model
+    (catchment -> river -> junction -> outlet) is run, a fresh copy is saved, the process goes back to the library's default
+    set (what a new session has), the saved model is loaded: the set in force must be the saved one, and the loaded model
+    must reproduce the run"""
+    import tempfile
+    import pandas as pd
+    from wsimod.core import constants
+    from wsimod.orchestration.model import Model
+    dates = [pd.Timestamp(d) for d in ("2000-02-27", "2000-02-28", "2000-02-29", "2000-03-01")]
+    msgs = []
+    for adds, nons in ([], ["temperature"]), (["phosphate"], []), (["salt"], ["temperature"]), (["phosphate", "salt"], []):
+        def mk():
+            constants.POLLUTANTS, constants.ADDITIVE_POLLUTANTS, constants.NON_ADDITIVE_POLLUTANTS = adds + nons, list(adds), list(nons)
+            data = {}
+            for i, d in enumerate(dates):
+                data[("flow", d)] = float(3 + 2 * i)
+                for p_ in adds:
+                    data[(p_, d)] = 0.25
+                for p_ in nons:
+                    data[(p_, d)] = 10.0 + i
+            m = Model()
+            m.add_nodes([{"name": "c", "type_": "Catchment", "data_input_dict": data},
+                         {"name": "j", "type_": "Node"}, {"name": "w", "type_": "Waste"}])
+            m.add_arcs([{"name": "a1", "type_": "Arc", "in_port": "c", "out_port": "j"},
+                        {"name": "a2", "type_": "QueueArc", "in_port": "j", "out_port": "w", "number_of_timesteps": 1}])
+            m.dates = list(dates)
+            return m
+        try:
+            with quiet():
+                r0, e0 = run_model(mk())
+                with tempfile.TemporaryDirectory(prefix="c14s_") as d:
+                    mk().save(d)
+                    constants.set_default_pollutants()          # a new session
+                    m1 = Model()
+                    m1.load(d)
+                inforce = (list(constants.POLLUTANTS), list(constants.ADDITIVE_POLLUTANTS), list(constants.NON_ADDITIVE_POLLUTANTS))
+                r1, e1 = run_model(m1)
+            if sorted(inforce[0]) != sorted(adds + nons) or inforce[1] != adds or inforce[2] != nons:
+                msgs.append(f"pollutant set saved as additive {adds} / non-additive {nons}; after loading into a fresh session the set in force is "
+                            f"additive {inforce[1]} / non-additive {inforce[2]}")
+            elif e0 or e1:
+                if e0 != e1:
+                    msgs.append(f"pollutant set additive {adds} / non-additive {nons}: original run: {e0}; loaded model's run: {e1}")
+            else:
+                dd = diff_results(r0, r1, TOL)
+                if dd:
+                    msgs.append(f"pollutant set additive {adds} / non-additive {nons}: loaded model differs: {fmt_diffs(dd)}")
+        except Exception as ex:
+            msgs.append(f"pollutant set additive {adds} / non-additive {nons}: save / load raised {err_text(ex)}")
+        finally:
+            constants.set_default_pollutants()
+    return None, ("sparse pollutant sets: " + " || ".join(msgs[:2])) if msgs else None
+
+
 # ---------------------------------------------------------------------------
 # (b) pickle / resume
 # ---------------------------------------------------------------------------
@@ -1003,7 +1058,7 @@ def run(rep, thorough):
             elif len(rep.samples) < 1 and out["nontrivial"]:
                 rep.samples.append({"part": "saveload", "compress": compress, "size": cfg["size"], "polset": cfg["polset"],
                                     "nodes": nc, "surfaces": sc, "arcs": ac, "dates": len(cfg["dates"]), "known": sorted(out["known"])})
-    for sig, msg in (probe_growing_without_soil(r), probe_type_filing(), probe_leap_year(r)):
+    for sig, msg in (probe_growing_without_soil(r), probe_type_filing(), probe_leap_year(r), probe_sparse_pollutant_sets(r)):
         mon["cases"] += 1
         if sig:
             seen.add(sig)
